@@ -335,6 +335,25 @@ func swapScenario(rng *rand.Rand) *scenario {
 	return sc
 }
 
+// siblingScenario: protected files whose names are another protected file's name plus a temporary-file / backup
+// suffix; the base file is lost and must be restored while its siblings stay what they are.
+func siblingScenario(rng *rand.Rand) *scenario {
+	sc := &scenario{prot: map[string][]byte{}, s: 8, r: 6, g: 2, volLoss: "none"}
+	sc.names = []string{"report.doc", "report.doc.tmp", "report.doc~", "report.doc.bak", "sub/x", "sub/x.tmp"}
+	for i, n := range sc.names {
+		d := make([]byte, 9+3*i)
+		rng.Read(d)
+		sc.prot[n] = d
+	}
+	sc.desc = "siblings with temporary-file / backup suffixes"
+	sc.damage = func(rng *rand.Rand, sc *scenario, disk map[string][]byte) []string {
+		disk["report.doc"] = nil
+		disk["sub/x"] = nil
+		return []string{"delete report.doc", "delete sub/x"}
+	}
+	return sc
+}
+
 func runP2Big(args []string) error {
 	c := newCommon("p2big")
 	count := c.fs.Int("n", 0, "number of scenarios (0 = tier default)")
@@ -359,6 +378,8 @@ func runP2Big(args []string) error {
 			sc = singularScenario(rng)
 		} else if idx == 6 {
 			sc = swapScenario(rng)
+		} else if idx == 9 {
+			sc = siblingScenario(rng)
 		} else {
 			sc = makeScenario(rng, idx, thorough)
 		}
